@@ -76,6 +76,12 @@ structure QuicPacketObj where
   deriving DecidableEq, Repr
 """]),
     "Suites": dict(imports=["TLX.PyRt", "TLX.CipherSuiteTypes"], decls=[]),
+    "Reasm2": dict(imports=["TLX.PyRt", "TLX.Reassembly"],
+                   decls=["/-- a `TlsRecord` as constructed: `binary` (the whole record) and `metadata` (the packets that carry it) -/\n"
+                          "structure TlsRecordObj where\n  binary : Bytes\n  metadata : List TLX.Reassembly.Seg\n  deriving DecidableEq, Repr\n"]),
+    "KeySched": dict(imports=["TLX.PyRt", "TLX.KeySchedule"],
+                     decls=["/-- a `QuicDecryptor` as constructed: its key list -/\nstructure QDecObj where\n  keys : List Bytes\n  deriving DecidableEq, Repr\n"], options=["set_option linter.unusedVariables false"]),
+    "TlsSess2": dict(imports=["TLX.PyRt", "TLX.Session"], decls=[], options=["set_option linter.unusedVariables false"]),
     # the frame class constructors call the two varint functions: this group rests on Varint's definitions
     "Frames": dict(imports=["TLX.PyRt", "TLX.Quic.FrameTypes", "TLX.Gen.Translated.Varint"], decls=[]),
 }
@@ -438,11 +444,411 @@ SPECS.append(dict(name="calculate_checksum_tcp", group="Checksum", file="tlexpor
                           ("len(packet.tcp)", "l4_len", "Nat", "r"), ("bytes(packet.tcp)", "l4_bytes", "Bytes", "r"),
                           ("packet.tcp.sum", "l4_sum", "Nat", "r")]))
 
+# session.py, the record handlers as a family over ONE state record (`Sess.St δ`, δ = the decryptor object): the methods
+# call each other (state calls), `Decryptor.decrypt` / `update_keys` and `generate_keys` are externals. A `TlsRecord` is the
+# model's `Rec` (`record.binary` = `Rec.body` …, tied by `TlsRecord_init`). Attributes that exist only after some record was
+# seen are `Option` places whose read is AttributeError on `none` (`maybe_attrs`).
+REC = "TLX.Session.Rec"
+SESS_ST = "Sess.St δ"
+SESS_FIELDS = [("self.can_decrypt", "can_decrypt", "Bool"), ("self.client_hello_seen", "client_hello_seen", "Bool"),
+               ("self.tls_version", "tls_version", f"Option {VER}"),
+               ("self.server_cipher_change", "server_cipher_change", "Bool"), ("self.client_cipher_change", "client_cipher_change", "Bool"),
+               ("self.decryptor", "decryptor", "Option δ"),
+               ("self.client_random", "client_random", "Option Bytes"), ("self.server_random", "server_random", "Option Bytes"),
+               ("self.ciphersuite", "ciphersuite", "Option Bytes"), ("self.compression_method", "compression_method", "Option Nat"),
+               ("self.extensions", "extensions", "Option (Table Bytes; Bytes)"),
+               ("self.application_traffic", "application_traffic", f"List ((Option Bytes) × {REC} × Bool)"),
+               ("self.handshake_13_buffer", "handshake_13_buffer", "Bytes × Bytes")]
+SESS_PLACES = [(k, f, t, "s") for k, f, t in SESS_FIELDS] + [("self.exp_meta", "exp_meta", "Bool", "r")]
+SESS_MAYBE = ["self.client_random", "self.server_random", "self.ciphersuite", "self.compression_method", "self.extensions"]
+SESS_EXT = {"decrypt": ("decrypt", f"δ → {REC} → Bool → PyRt.Res δ (Option Bytes)"),
+            "update_keys": ("update_keys", "δ → Bool → PyRt.Res δ Unit"),
+            "generate_keys": ("generate_keys", f"Option {VER} → Bytes → Bytes → Bytes → Option (List (Bytes × Bytes)) → Option Nat → Bool → Option δ → "
+                                               "PyRt.Res (Bool × Option δ) Unit")}
+REC_ATTRS = {(REC, "binary"): ("TLX.Session.Rec.body", "Bytes"), (REC, "raw"): ("TLX.Session.Rec.raw", "Bytes"),
+             (REC, "record_version"): ("TLX.Session.Rec.ver", "Bytes"), (REC, "record_type"): ("Sess.recType", "Nat")}
+SESS_METHODS = {
+    "self.decryptor.decrypt": dict(kind="method", recv="self.decryptor", lean="decrypt", args=[REC, "Bool"], ret="Option Bytes"),
+    "self.decryptor.update_keys": dict(kind="method", recv="self.decryptor", lean="update_keys", args=["Bool"], ret="None"),
+    "self.generate_keys": dict(kind="ext", lean="generate_keys", args=[f"Option {VER}", "Bytes", "Bytes", "Bytes"],
+                               reads=["self.extensions", "self.compression_method", "self.can_decrypt", "self.decryptor"],
+                               writes=["self.can_decrypt", "self.decryptor"], ret="None"),
+}
+# the externals each definition needs (its own and those of the definitions it calls), in this order
+SESS_NEEDS = {}
+
+
+def sess_state_decl():
+    lines = ["/-- the attributes of a `Session` the record handlers read and write (δ: the `Decryptor` object) -/",
+             "structure Sess.St (δ : Type) where"]
+    lines += [f"  {f} : {py2lean.ty(t)}" for _, f, t in SESS_FIELDS]
+    lines += ["  deriving DecidableEq, Repr", "", "/-- `record.record_type` (`binary[0]` as `TlsRecord.__init__` stores it, see `TlsRecord_init`) -/",
+              f"def Sess.recType (r : {REC}) : Nat := (r.raw.headD 0).toNat"]
+    return "\n".join(lines) + "\n"
+
+
+def sess_spec(func, params, ext, calls=(), name=None, **more):
+    """a method of the family; `calls`: the family methods it calls (already declared)"""
+    name = name or func
+    need = list(ext)
+    for c in calls:
+        need += [e for e in SESS_NEEDS[c] if e not in need]
+    need = [e for e in SESS_EXT if e in need]
+    SESS_NEEDS[name] = need
+    sc = {k: v for k, v in SESS_METHODS.items() if v["lean"] in need}
+    for c in calls:
+        cs = next(x for x in SPECS if x["name"] == "Sess." + c)
+        sc["self." + c] = dict(kind="shared", lean="Sess." + c, exts=SESS_NEEDS[c], args=[t for _, t in cs["params"]],
+                               rplaces=["self.exp_meta"], ret="None")
+    spec = dict(name="Sess." + name, group="TlsSess2", file="tlexport/session.py", func="Session." + func, params=params, ret="None",
+                tparams=["δ"], state=dict(type=SESS_ST, param="st"), always_res=True, places=SESS_PLACES, maybe_attrs=SESS_MAYBE,
+                pairdicts={"self.handshake_13_buffer": 'b""'}, consts=TLSVER, attr_funcs=REC_ATTRS,
+                externals=[SESS_EXT[e] for e in need], state_calls=sc)
+    spec.update(more)
+    SPECS.append(spec)
+
+
+SPECS.append(dict(name="TlsRecord_init", group="TlsSess2", file="tlexport/tlsrecord.py", func="TlsRecord.__init__", theorem="Sess.TlsRecord_init_eq_model",
+                  params=[("binary", "Bytes")], ret="None", raise_state=False, ignore_writes=["self.metadata", "self.isserver"],
+                  places=[("self.binary", "binary_", "Bytes", "rw"), ("self.record_type", "record_type", "Nat", "rw"),
+                          ("self.record_version", "record_version", "Bytes", "rw"), ("self.record_length", "record_length", "Bytes", "rw"),
+                          ("self.raw", "raw", "Bytes", "rw")]))
+SPECS.append(dict(name="Sess.St", group="TlsSess2", kind="raw", file="tlexport/session.py", func=None, gen=sess_state_decl,
+                  theorem="Sess.handle_tls_record_eq_model"))
+R = [("record", REC)]
+RS = [("record", REC), ("isserver", "Bool")]
+sess_spec("handle_alert", [("alert_level", "Nat")], [])
+sess_spec("handle_tls_client_hello", R, [])
+sess_spec("handle_tls_server_hello", R, ["generate_keys"], fuel={"while extensions_index": "extensions_length"})
+sess_spec("handle_handshake_finished", RS, ["decrypt"], locals={"_plaintext": "Option Bytes"})
+sess_spec("handle_tls_handshake_record", RS, [], calls=["handle_handshake_finished", "handle_tls_client_hello", "handle_tls_server_hello"])
+sess_spec("handle_decrypted_tls_13_handshake_record", [("plaintext", "Bytes"), ("isserver", "Bool")], ["update_keys"],
+          fuel={"while len(buffer)": "len(buffer)"})
+sess_spec("handle_tls_13_application_record", RS, ["decrypt"], calls=["handle_decrypted_tls_13_handshake_record", "handle_alert"])
+sess_spec("handle_tls_application_record", RS, ["decrypt"])
+sess_spec("handle_tls_record", RS, [], calls=["handle_tls_handshake_record", "handle_tls_13_application_record",
+                                              "handle_tls_application_record", "handle_alert"])
+# get_tls_records: the two loops that hand the records of one direction on, in order (an exception ends the run there)
+for _d, _flag in (("server", "True"), ("client", "False")):
+    sess_spec("get_tls_records", [], [], calls=["handle_tls_record"], name=f"run_{_d}_records",
+              select={"start": f"for record in self.{_d}_tls_records"},
+              places=SESS_PLACES + [(f"self.{_d}_tls_records", "records", f"List {REC}", "r")])
+
+# session.py extract_*_buf, the framing part (after the contiguity test): packet_ranges / packet_data, the scan for
+# `need_data`, the records with their carrier packets, the next expected sequence number. A packet object is the model's
+# `Seg` (`tls_data` = `Seg.data`); a `TlsRecord` is what its constructor gets (`binary`, `metadata`).
+for _d in ("server", "client"):
+    SPECS.append(dict(name=f"extract_{_d}_frame", group="Reasm2", file="tlexport/session.py", func=f"Session.extract_{_d}_buf",
+                      select={"start": "index = 0", "end": "if not need_data:"}, params=[("base", "Nat")],
+                      places=[(f"self.{_d}_packet_buffer", "packet_buffer", f"List {SEG}", "rw"),
+                              (f"self.{_d}_tls_records", "tls_records", "List TlsRecordObj", "rw"),
+                              (f"self.{_d}_next_seq", "next_seq", "Option Nat", "rw")],
+                      attr_funcs={(SEG, "tls_data"): ("TLX.Reassembly.Seg.data", "Bytes")},
+                      locals={"packet_ranges": f"List (Nat × Nat × {SEG})", "metadata": f"List {SEG}"},
+                      fuel={"while True": "total_packet_len + 1", "while index != total_packet_len": "total_packet_len"},
+                      ctors={"TlsRecord": dict(type="TlsRecordObj", positional=[("binary", "Bytes"), ("metadata", f"List {SEG}"), (None, None)])}))
+
+# key_derivator.py / quic_key_generation.py: the PRFs, master secrets, key-block slicing and HKDF label plumbing. The hash
+# primitives are externals (`hmacX alg key msg`, `hashX alg msg`, `hkdfExpandX alg length info ikm`, `hkdfExtractX alg salt ikm`);
+# a hash / HMAC object is `PyRt.Acc` (`update` appends, `finalize` digests); `math.ceil(l_s / 2)` is the external `ceilHalf`
+# (float division: exact below 2^53, which the spec does not assume). Hash classes and cipher classes are the model's tags.
+MT = "TLX.KeySchedule.MacTag"
+CT = "TLX.KeySchedule.CipherTag"
+KD = "tlexport/key_derivator.py"
+HMACX = ("hmacX", f"{MT} → Bytes → Bytes → Bytes")
+HASHX = ("hashX", f"{MT} → Bytes → Bytes")
+HKDFX = ("hkdfExpandX", f"{MT} → Nat → Bytes → Bytes → Bytes")
+EXTRX = ("hkdfExtractX", f"{MT} → Bytes → Bytes → Bytes")
+CEILX = ("ceilHalf", "Nat → Nat")
+HASH_CONSTS = {"hashes.SHA256": (f"{MT}.sha256", MT), "hashes.SHA384": (f"{MT}.sha384", MT),
+               "hashes.MD5()": (f"{MT}.md5", MT), "hashes.SHA1()": (f"{MT}.sha1", MT)}
+CIPHER_CONSTS = {"algorithms.AES": (f"{CT}.aes", CT), "algorithms.Camellia": (f"{CT}.camellia", CT),
+                 "algorithms.TripleDES": (f"{CT}.tripleDES", CT), "algorithms.IDEA": (f"{CT}.idea", CT),
+                 "ChaCha20Poly1305": (f"{CT}.chacha", CT)}
+ACC_CALLS = {"hmac.HMAC": dict(fmt="(PyRt.Acc.mk (hmacX {1} {0}) [])", args=["Bytes", MT], ret="Acc"),
+             "hashes.Hash": dict(fmt="(PyRt.Acc.mk (hashX {0}) [])", args=[MT], ret="Acc")}
+B4 = [("secret", "Bytes"), ("client_random", "Bytes"), ("server_random", "Bytes")]
+
+
+def ks_spec(name, params, ret, file=KD, **more):
+    spec = dict(name=name, group="KeySched", file=file, func=name, params=params, ret=ret, consts={**HASH_CONSTS, **CIPHER_CONSTS},
+                theorem=f"KS.{name}_eq_model",
+                instances=[MT], calls=dict(ACC_CALLS))
+    for k, v in more.items():
+        if k in ("consts", "calls"):
+            spec[k] = {**spec[k], **v}
+        else:
+            spec[k] = v
+    SPECS.append(spec)
+
+
+PRF12 = dict(lean="prf_tls_12 hmacX", args=["Bytes", "Bytes", "Bytes", "Bytes", "Nat", MT], ret="Bytes", raises=True)
+PRF1011 = dict(lean="prf_tls_10_11 hmacX ceilHalf", args=["Bytes", "Bytes", "Bytes", "Bytes", "Nat", "Nat"], ret="Bytes", raises=True)
+PRF30 = dict(lean="prf_ssl_30 hashX", args=["Bytes", "Bytes", "Bytes", "Nat", "Nat"], ret="Bytes", raises=True)
+ks_spec("prf_tls_12", B4 + [("label", "Bytes"), ("length", "Nat"), ("mac_function", MT)], "Bytes", externals=[HMACX],
+        fuel={"while len(secret_block)": "length"})
+ks_spec("prf_tls_10_11", B4 + [("label", "Bytes"), ("length", "Nat"), ("non_key", "Nat")], "Bytes", externals=[HMACX, CEILX],
+        consts={"math.ceil(l_s / 2)": ("(ceilHalf l_s)", "Nat")},
+        fuel={"while len(p_md5)": "length", "while len(p_sha1)": "length"})
+ks_spec("prf_ssl_30", B4 + [("length", "Nat"), ("non_key", "Nat")], "Bytes", externals=[HASHX], fuel={"while len(key_block)": "length"})
+GM = [("pm_secret", "Bytes"), ("client_random", "Bytes"), ("server_random", "Bytes")]
+ks_spec("gen_master_secret_tls_12", GM + [("mac_function", MT)], "Bytes", externals=[HMACX])
+ks_spec("gen_master_secret_tls_10_11", GM, "Bytes", externals=[HMACX, CEILX], calls={"prf_tls_10_11": PRF1011})
+ks_spec("gen_master_secret_ssl_30", GM, "Bytes", externals=[HASHX], calls={"prf_ssl_30": PRF30})
+DEV = [("key_length", "Nat"), ("mac_length", "Nat"), ("key_block_length", "Nat"), ("cipher_algo", CT), ("use_aead", "Nat")]
+DROP_LOG = ["logging_string", "for k in keys"]
+KEYS_T = "Table Str; Bytes"
+ks_spec("dev_tls_12_keys", [("master_secret", "Bytes"), ("client_random", "Bytes"), ("server_random", "Bytes")] + DEV + [("mac_function", MT)],
+        KEYS_T, externals=[HMACX], calls={"prf_tls_12": PRF12}, drop_stmts=DROP_LOG)
+ks_spec("dev_tls_10_11_keys", [("master_secret", "Bytes"), ("server_random", "Bytes"), ("client_random", "Bytes")] + DEV,
+        KEYS_T, externals=[HMACX, CEILX], calls={"prf_tls_10_11": PRF1011}, drop_stmts=DROP_LOG)
+ks_spec("dev_ssl_30_keys", [("master_secret", "Bytes"), ("server_random", "Bytes"), ("client_random", "Bytes")] + DEV,
+        KEYS_T, externals=[HASHX], calls={"prf_ssl_30": PRF30}, drop_stmts=DROP_LOG)
+QK = "tlexport/quic/quic_key_generation.py"
+ks_spec("make_info", [("label", "Bytes"), ("key_length", "Nat")], "Bytes", file=QK)
+
+# … TLS 1.3 / QUIC: a key-log entry is (label, bytes of the hex value) — `bytes.fromhex(secret.value)` is that second component
+KSEC = {"KSecret": "(List Nat × Bytes)"}
+KSEC_ATTRS = {("KSecret", "label"): ("Prod.fst", "Str")}
+KSEC_CONSTS = {"bytes.fromhex(secret.value)": ("secret.2", "Bytes")}
+QV = "TLX.KeySchedule.QuicVersion"
+QV_CONSTS = {"QuicVersion.V1": (f"{QV}.v1", QV), "QuicVersion.V2": (f"{QV}.v2", QV)}
+HKDF_CALLS = {"HKDFExpand.derive": dict(lean="hkdfExpandX", params=(["algorithm", "length", "info"], ["key_material"]),
+                                        args=[MT, "Nat", "Bytes", "Bytes"], ret="Bytes"),
+              "HKDF._extract": dict(lean="hkdfExtractX", params=(["algorithm", "length", "salt", "info"], ["key_material"]),
+                                    args=[MT, None, "Bytes", None, "Bytes"], ret="Bytes")}
+MAKE_INFO = {"make_info": dict(lean="make_info", args=["Bytes", "Nat"], ret="Bytes", raises=True)}
+OB = "Option Bytes"
+ks_spec("dev_tls_13_keys", [("secret_list", "List KSecret"), ("key_length", "Nat"), ("hash_fun", MT)], f"Table Str; ({OB})",
+        externals=[HKDFX], types=KSEC, attr_funcs=KSEC_ATTRS, consts=KSEC_CONSTS, calls=HKDF_CALLS, drop_stmts=DROP_LOG,
+        locals={n: OB for n in ("client_handshake_key", "client_handshake_iv", "server_handshake_key", "server_handshake_iv",
+                                "client_application_key", "client_application_iv", "server_application_key", "server_application_iv")})
+ks_spec("dev_initial_keys", [("connection_id", "Bytes"), ("quic_version", QV), ("chacha20", "Bool")], f"Option ({KEYS_T})", file=QK,
+        externals=[HKDFX, EXTRX], consts={**QV_CONSTS, "SHA256()": (f"{MT}.sha256", MT)}, calls={**HKDF_CALLS, **MAKE_INFO})
+ks_spec("key_update", [("hash_fun", MT), ("key_length", "Nat"), ("quic_version", QV)], "QDecObj", file=QK,
+        externals=[HKDFX, ("digestSize", f"{MT} → Nat")], consts={**QV_CONSTS, "quic_version.V1": ("true", "Bool")},
+        attr_funcs={(MT, "digest_size"): ("digestSize", "Nat")}, calls={**HKDF_CALLS, **MAKE_INFO},
+        places=[("decryptor_n.keys", "keys", "List Bytes", "r")],
+        ctors={"QuicDecryptor": dict(type="QDecObj", positional=[("keys", "List Bytes"), (None, None)], ignore_kw=["early"])})
+QK_MAYBE = {f"{side}_{kind}_{part}": "Bytes" for side in ("client", "server") for kind in ("handshake", "application") for part in ("key", "iv", "hp")}
+QK_MAYBE.update({"client_application_secret": "Bytes", "server_application_secret": "Bytes"})
+ks_spec("dev_quic_keys", [("key_length", "Nat"), ("secret_list", "List KSecret"), ("hash_fun", MT), ("quic_version", QV)], f"Table Str; ({OB})",
+        file=QK, externals=[HKDFX], types=KSEC, attr_funcs=KSEC_ATTRS, consts={**KSEC_CONSTS, **QV_CONSTS}, calls={**HKDF_CALLS, **MAKE_INFO},
+        drop_stmts=DROP_LOG, maybe_locals=QK_MAYBE, split_loops=True,
+        locals={f"{side}_early_traffic_{part}": OB for side in ("client", "server") for part in ("key", "iv", "hp")})
+
+# the output builders: the export loops and the seq/ack arithmetic. A scapy packet is the list of its layers as constructed
+# (`Layer`: the keyword arguments given; `/` stacks); what scapy makes of them is compared byte for byte by the harness.
+LAYERS = {"Layers": "(List Layer)"}
+ADDR = "Str|Bytes"
+SCAPY_CALLS = {"Ether": dict(lean="mkEther", params=["src", "dst"], args=["Bytes", "Bytes"], ret="Layers"),
+               "IP": dict(lean="mkIP false", params=["src", "dst"], args=[ADDR, ADDR], ret="Layers"),
+               "IPv6": dict(lean="mkIP true", params=["src", "dst"], args=[ADDR, ADDR], ret="Layers"),
+               "UDP": dict(lean="mkUDP", params=["dport", "sport"], args=["Nat", "Nat"], ret="Layers"),
+               "TCP": dict(lean="mkTCP", params=["dport", "sport", "flags", "seq", "ack"], args=["Nat", "Nat", "Str", "Nat", "Nat"], ret="Layers"),
+               "Raw": dict(lean="mkRaw", args=["Bytes"], ret="Layers")}
+LAYER_DECL = """/-- one scapy layer as constructed: the keyword arguments given -/
+inductive Layer
+  | ether (src dst : Bytes)
+  | ip (v6 : Bool) (src dst : Sum (List Nat) Bytes)
+  | udp (dport sport : Nat)
+  | tcp (dport sport : Nat) (flags : List Nat) (seq ack : Nat)
+  | raw (load : Bytes)
+  deriving DecidableEq, Repr
+
+abbrev Layers := List Layer
+/-- a `TlsRecord` as the TCP builder reads it (the capture times of `metadata`), a packet of `metadata` (its `timestamp`) -/
+abbrev TRec := List Nat
+abbrev TPkt := Nat
+
+def mkEther (src dst : Bytes) : List Layer := [Layer.ether src dst]
+def mkIP (v6 : Bool) (src dst : Sum (List Nat) Bytes) : List Layer := [Layer.ip v6 src dst]
+def mkUDP (dport sport : Nat) : List Layer := [Layer.udp dport sport]
+def mkTCP (dport sport : Nat) (flags : List Nat) (seq ack : Nat) : List Layer := [Layer.tcp dport sport flags seq ack]
+def mkRaw (load : Bytes) : List Layer := [Layer.raw load]
+"""
+GROUPS["Builders"] = dict(imports=["TLX.PyRt", "TLX.TcpOut", "TLX.Quic.UdpOut"], decls=[LAYER_DECL],
+                          options=["set_option linter.unusedVariables false"])
+UF = "TLX.Quic.UdpOut.Frame"
+QB_ADDR = [("self.server_mac_address", "server_mac", "Bytes", "r"), ("self.client_mac_address", "client_mac", "Bytes", "r"),
+           ("self.server_ip", "server_ip", "Str", "r"), ("self.client_ip", "client_ip", "Str", "r"),
+           ("self.server_port", "server_port", "Nat", "r"), ("self.client_port", "client_port", "Nat", "r"), ("self.ipv6", "ipv6", "Bool", "r")]
+SPECS.append(dict(name="quic_build", group="Builders", theorem="Bld.quic_build_eq_model", file="tlexport/quic/quic_output_builder.py", func="QUICOutputbuilder.build",
+                  params=[("metadata", "Bool")], ret="List (Layers × (Option Nat))", types=LAYERS, calls=SCAPY_CALLS, split_loops=True,
+                  places=[("self.decrypted_traffic", "decrypted_traffic", f"List {UF}", "r"),
+                          ("self.out", "out", "List (Layers × (Option Nat))", "rw")] + QB_ADDR,
+                  locals={"ts": "Option Nat", "isserver": "Option Bool", "data": "Option Bytes"},
+                  consts={"frame.src_packet.ts": (f"({UF}.ts frame)", "Nat"), "frame.src_packet.isserver": (f"({UF}.isServer frame)", "Bool")},
+                  attr_funcs={(UF, "frame_type"): (f"{UF}.ftype", "Nat"), (UF, "crypto"): (f"{UF}.data", "Bytes"),
+                              (UF, "payload"): (f"{UF}.data", "Bytes"), (UF, "stream_data"): (f"{UF}.data", "Bytes")}))
+
+# OutputBuilder: `build` and the three methods it calls, over one state record (`Tcp.St`). `floor(record_len / packet_count)` is
+# the external `fdivfloor` (a float division: exact for operands below 2^26, which TLS record lengths and carrier counts are;
+# the theorems give `fdivfloor a b = a // b`, ZeroDivisionError for b = 0). A record of `decrypted_records` is
+# (plaintext or None, the capture times of its carrier packets, direction).
+TCP_FIELDS = [("self.out", "out", "List (Layers × Nat)"), ("self.server_seq", "server_seq", "Nat"), ("self.client_seq", "client_seq", "Nat"),
+              ("self.ts_zero", "ts_zero", "Option Nat"), ("self.conn_reset", "conn_reset", "Bool"),
+              ("self.no_application_records", "no_application_records", "Bool")]
+TCP_ADDR = [("self.server_mac_addr", "server_mac", "Bytes", "r"), ("self.client_mac_addr", "client_mac", "Bytes", "r"),
+            ("self.server_ip", "server_ip", "Str", "r"), ("self.client_ip", "client_ip", "Str", "r"),
+            ("self.server_port", "server_port", "Nat", "r"), ("self.client_port", "client_port", "Nat", "r"), ("self.ipv6", "ipv6", "Bool", "r")]
+TCP_PLACES = [(k, f, t, "s") for k, f, t in TCP_FIELDS] + TCP_ADDR
+TCP_RPLACES = [p[0] for p in TCP_ADDR]
+FDIV = ("fdivfloor", "Int → Int → Except PyRt.Err Int")
+
+
+def tcp_state_decl():
+    return ("/-- the attributes of an `OutputBuilder` its methods write -/\nstructure Tcp.St where\n"
+            + "".join(f"  {f} : {py2lean.ty(t)}\n" for _, f, t in TCP_FIELDS) + "  deriving DecidableEq, Repr\n")
+
+
+SPECS.append(dict(name="Tcp.St", group="Builders", kind="raw", file="tlexport/output_builder.py", func=None, gen=tcp_state_decl,
+                  theorem="Bld.tcp_build_eq_model"))
+
+
+def tcp_spec(func, params, ext, calls=(), **more):
+    sc = {}
+    for c, cparams in calls:
+        sc["self." + c] = dict(kind="shared", lean="Tcp." + c, exts=[e for e in (["fdivfloor"] if c != "build_ack_handshake" else [])],
+                               args=[t for _, t in cparams], rplaces=TCP_RPLACES, ret="None")
+    spec = dict(name="Tcp." + func, group="Builders", file="tlexport/output_builder.py", func="OutputBuilder." + func, params=params,
+                ret="None", state=dict(type="Tcp.St", param="st"), always_res=True, places=TCP_PLACES, maybe_attrs=["self.ts_zero"],
+                types={**LAYERS, "TRec": "(List Nat)", "TPkt": "Nat"}, calls=SCAPY_CALLS, externals=ext, state_calls=sc, split_loops=True,
+                theorem=f"Bld.tcp_{func}_eq_model")
+    spec.update(more)
+    SPECS.append(spec)
+
+
+PK = [("decrypted", "Bytes"), ("ts", "List Nat")]
+tcp_spec("build_ack_handshake", [], [])
+tcp_spec("build_server_packet", PK, [FDIV], locals={"parts": "List Bytes"})
+tcp_spec("build_client_packet", PK, [FDIV], locals={"parts": "List Bytes"})
+tcp_spec("build", [], [FDIV], calls=[("build_ack_handshake", []), ("build_server_packet", PK), ("build_client_packet", PK)],
+         ret="List (Layers × Nat)", locals={"ts": "List Nat"},
+         places=TCP_PLACES + [("self.decrypted_records", "decrypted_records", "List ((Option Bytes) × TRec × Bool)", "r")],
+         attr_funcs={("TRec", "metadata"): ("id", "List TPkt"), ("TPkt", "timestamp"): ("id", "Nat")})
+
+# decryptor.py: the control flow and byte arithmetic around the primitive calls, over one state record (`Dec.St`). The AEAD
+# objects are what their constructors got (`AeadObj`), `cipher.decrypt(nonce, data, aad)` is the external `aeadOpen`; logging
+# calls are NOT dropped here: `{key.hex()}` inside their f-strings raises AttributeError for a `None` key (`log_effects`).
+RLV = "TLX.RecordLayer.Version"
+ALG = "TLX.Cipher.Alg"
+CTY = "TLX.RecordLayer.CType"
+RLR = "TLX.RecordLayer.Rec"
+DF = "tlexport/decryptor.py"
+RLV_CONSTS = {f"TlsVersion.{a}": (f"{RLV}.{b}", RLV) for a, b in
+              [("SSL30", "ssl30"), ("TLS10", "tls10"), ("TLS11", "tls11"), ("TLS12", "tls12"), ("TLS13", "tls13")]}
+ALG_CONSTS = {a: (f"{ALG}.{b}", ALG) for a, b in [("AES", "aes"), ("TripleDES", "tdes"), ("Camellia", "camellia"), ("IDEA", "idea"),
+                                                   ("AESCCM", "aesccm"), ("AESGCM", "aesgcm"), ("ChaCha20", "chacha20"),
+                                                   ("ChaCha20Poly1305", "chachaPoly"), ("ARC4", "arc4")]}
+CTY_CONSTS = {f"EncryptionType.{a}": (f"{CTY}.{b}", CTY) for a, b in
+              [("Stream_Cipher", "stream"), ("Block_Cipher", "block"), ("AEAD", "aead"), ("Unknown", "unknown")]}
+OB2 = "Option (Option Bytes)"
+DEC_FIELDS = ([(f"self.{d}_{k}", f"{d}_{k}", "Option Bytes") for d in ("server", "client") for k in ("key", "iv")]
+              + [("self.server_seq", "server_seq", "Nat"), ("self.client_seq", "client_seq", "Nat"),
+                 ("self.last_block_server", "last_block_server", OB2), ("self.last_block_client", "last_block_client", OB2)]
+              + [(f"self.{d}_{k}", f"{d}_{k}", OB2) for d in ("server", "client")
+                 for k in ("handshake_key", "handshake_iv", "application_key", "application_iv")]
+              + [("self.cipher_type", "cipher_type", f"Option {CTY}")])
+DEC_MAYBE = [k for k, _, t in DEC_FIELDS if t == OB2] + ["self.cipher_type"]
+DEC_CFG = [("self.tls_version", "tls_version", RLV, "r"), ("self.bulk_alg", "bulk_alg", ALG, "r"), ("self.mac_length", "mac_length", "Nat", "r"),
+           ("self.tag_length", "tag_length", "Nat", "r"), ("self.block_length", "block_length", "Nat", "r"),
+           ("self.encrypt_then_mac", "encrypt_then_mac", "Bool", "r"), ("self.compression_method", "compression_method", "Nat", "r")]
+DEC_PLACES = [(k, f, t, "s") for k, f, t in DEC_FIELDS] + DEC_CFG
+DEC_REC_ATTRS = {(RLR, "binary"): (f"{RLR}.body", "Bytes"), (RLR, "raw"): (f"{RLR}.raw", "Bytes"), (RLR, "record_version"): (f"{RLR}.ver", "Bytes"),
+                 (RLR, "record_length"): (f"{RLR}.len", "Bytes"), (RLR, "record_type"): ("Dec.recType", "Nat")}
+AEADX = ("aeadOpen", "AeadObj → Bytes → Bytes → Bytes → Except PyRt.Err Bytes")
+INFLX = ("inflate", "Bytes → Bool → Except PyRt.Err Bytes")
+DEC_DECL = ("/-- an AEAD cipher object as constructed: the class, the key and (AESCCM) the tag length -/\n"
+            f"structure AeadObj where\n  alg : {ALG}\n  key : Bytes\n  tag : Option Nat\n  deriving DecidableEq, Repr\n\n"
+            f"/-- `record.record_type` -/\ndef Dec.recType (r : {RLR}) : Nat := r.typ.toNat\n")
+GROUPS["Decrypt"] = dict(imports=["TLX.PyRt", "TLX.RecordLayer"], decls=[DEC_DECL], options=["set_option linter.unusedVariables false"])
+
+
+def dec_state_decl():
+    return ("/-- the attributes of a `Decryptor` its methods write -/\nstructure Dec.St where\n"
+            + "".join(f"  {f} : {py2lean.ty(t)}\n" for _, f, t in DEC_FIELDS) + "  deriving DecidableEq, Repr\n")
+
+
+SPECS.append(dict(name="Dec.byte_xor", group="Decrypt", file=DF, func="byte_xor", params=[("a", "Bytes"), ("b", "Bytes")], ret="Bytes",
+                  theorem="Decr.byte_xor_eq_model"))
+SPECS.append(dict(name="Dec.St", group="Decrypt", kind="raw", file=DF, func=None, gen=dec_state_decl, theorem="Decr.decrypt_eq_model"))
+DEC_ROUTINES = ["decrypt_tls13_aead", "decrypt_tls13_stream_cipher", "decrypt_tls12_chacha20", "decrypt_generic_stream_cipher",
+                "decrypt_tls12_aead", "decrypt_tls12_block_cipher", "decrypt_last_block_iv_cbc"]
+ROUT_T = f"Dec.St → {RLR} → Bool → PyRt.Res Dec.St Bytes"
+
+
+def dec_spec(func, params, ret="None", ext=(), **more):
+    spec = dict(name="Dec." + func, group="Decrypt", file=DF, func="Decryptor." + func, params=params, ret=ret,
+                state=dict(type="Dec.St", param="st"), always_res=True, places=DEC_PLACES, maybe_attrs=DEC_MAYBE, log_effects=True,
+                consts={**RLV_CONSTS, **ALG_CONSTS, **CTY_CONSTS}, attr_funcs=DEC_REC_ATTRS, externals=list(ext),
+                theorem=f"Decr.{func}_eq_model",
+                calls={"byte_xor": dict(lean="Dec.byte_xor", args=["Bytes", "Bytes"], ret="Bytes", raises=True),
+                       "AESGCM": dict(fmt="(AeadObj.mk TLX.Cipher.Alg.aesgcm {0} none)", args=["Bytes"], ret="AeadObj"),
+                       "AESCCM": dict(fmt="(AeadObj.mk TLX.Cipher.Alg.aesccm {0} (some {1}))", args=["Bytes", "Nat"], ret="AeadObj"),
+                       "ChaCha20Poly1305": dict(fmt="(AeadObj.mk TLX.Cipher.Alg.chachaPoly {0} none)", args=["Bytes"], ret="AeadObj"),
+                       "self.inflate": dict(lean="inflate", args=["Bytes", "Bool"], ret="Bytes", raises=True)},
+                obj_methods={("AeadObj", "decrypt"): dict(lean="aeadOpen", args=["Bytes", "Bytes", "Bytes"], ret="Bytes", raises=True)})
+    spec.update(more)
+    SPECS.append(spec)
+
+
+DR = [("record", RLR), ("isserver", "Bool")]
+dec_spec("get_cipher_type", [])
+dec_spec("update_keys", [("isserver", "Bool")])
+for _r in ("decrypt_tls13_aead", "decrypt_tls13_stream_cipher", "decrypt_tls12_chacha20", "decrypt_tls12_aead"):
+    dec_spec(_r, DR, ret="Bytes", ext=[AEADX, INFLX], locals={"cipher": "AeadObj"})
+# the dispatch: the seven routines are externals here (the four above are translated themselves, the other three — the RC4
+# context that two attributes alias, the CBC routines with `int(self.block_length / 8)` — are not)
+dec_spec("decrypt", DR, ret="Option Bytes", ext=[(r, ROUT_T) for r in DEC_ROUTINES],
+         state_calls={"self." + r: dict(kind="extshared", lean=r, args=[RLR, "Bool"], ret="Bytes") for r in DEC_ROUTINES})
+
+# quic_tls_parser.py: the handshake-message parsers of a QUIC session (`handle_record` and everything below it) over one state
+# record (`QTls.St`); the varint functions are the Varint group's. NOT translated: `update_session` / `handle_buffer` (a list of
+# frame objects sorted with a key function and `list.remove` by identity, dicts of lists keyed by packet type).
+QT = "tlexport/quic/quic_tls_parser.py"
+QT_FIELDS = [("self.client_random", "client_random", "Option Bytes"), ("self.ciphersuite", "ciphersuite", "Option Bytes"),
+             ("self.alpn", "alpn", "Option Bytes"), ("self.tls_vers", "tls_vers", "Option Bytes"), ("self.greasy_bit", "greasy_bit", "Bool"),
+             ("self.new_data", "new_data", "Bool"), ("self.session_id", "session_id", "Option Bytes")]
+QT_PLACES = [(k, f, t, "s") for k, f, t in QT_FIELDS]
+GROUPS["QuicTls"] = dict(imports=["TLX.PyRt", "TLX.Quic.TlsMsgs", "TLX.Gen.Translated.Varint"], decls=[], options=["set_option linter.unusedVariables false"])
+
+
+def qtls_state_decl():
+    return ("/-- the attributes of a `QuicTlsSession` the message parsers write -/\nstructure QTls.St where\n"
+            + "".join(f"  {f} : {py2lean.ty(t)}\n" for _, f, t in QT_FIELDS) + "  deriving DecidableEq, Repr\n")
+
+
+SPECS.append(dict(name="QTls.St", group="QuicTls", kind="raw", file=QT, func=None, gen=qtls_state_decl, theorem="QTlsP.handle_record_eq_model"))
+
+
+def qtls_spec(func, params, calls=(), **more):
+    sc = {}
+    for c, cp in calls:
+        sc["self." + c] = dict(kind="shared", lean="QTls." + c, exts=[], args=[t for _, t in cp], rplaces=[], ret="None")
+    spec = dict(name="QTls." + func, group="QuicTls", file=QT, func="QuicTlsSession." + func, params=params, ret="None",
+                state=dict(type="QTls.St", param="st"), always_res=True, places=QT_PLACES, state_calls=sc, calls=VARINT_CALLS,
+                split_loops=True, theorem=f"QTlsP.{func}_eq_model")
+    spec.update(more)
+    SPECS.append(spec)
+
+
+RB1 = [("record", "Bytes")]
+qtls_spec("get_quic_transport_parameters", [("extension_body", "Bytes")], fuel={"while True": "len(extension_body) + 1"},
+          locals={"parameters": "List (Nat × Nat × Bytes)"})
+qtls_spec("get_extensions", RB1, calls=[("get_quic_transport_parameters", [("e", "Bytes")])], fuel={"while True": "len(record) + 1"},
+          locals={"extensions": "List (Bytes × Nat × Bytes)"})
+qtls_spec("handle_client_hello", RB1, calls=[("get_extensions", RB1)])
+qtls_spec("handle_server_hello", RB1, calls=[("get_extensions", RB1)])
+qtls_spec("handle_encrypted_extensions", RB1, calls=[("get_extensions", RB1)])
+qtls_spec("handle_record", [("record_type", "Nat"), ("record", "Bytes")],
+          calls=[("handle_client_hello", RB1), ("handle_server_hello", RB1), ("handle_encrypted_extensions", RB1)])
+
 THEOREMS = _uniq(theorem_of(s) for s in SPECS)
 
 
 # a group whose definitions call another group's: it cannot be proved when that one is broken
-GROUP_DEPS = {"Frames": ["Varint"], "QuicDissect2": ["Varint", "QuicDissect"]}
+GROUP_DEPS = {"Frames": ["Varint"], "QuicDissect2": ["Varint", "QuicDissect"], "QuicTls": ["Varint"]}
 
 
 def group_modules(groups):
@@ -458,16 +864,18 @@ MODULES = group_modules(GROUPS)          # all groups (`TLX.Props.Translated` im
 
 # property → the groups whose translated functions its model functions are (what the check proves besides its own modules)
 CHECK_GROUPS = {
-    "C01": ["TlsSess", "Suites"],
-    "C02": ["QuicDissect", "QuicSess", "Pn", "Varint", "Frames", "QuicDissect2"],
-    "C03": ["TlsSess", "QuicDissect", "Varint", "QuicDissect2"],
+    "C01": ["TlsSess", "Suites", "TlsSess2", "Decrypt"],
+    "C02": ["QuicDissect", "QuicSess", "Pn", "Varint", "Frames", "QuicDissect2", "QuicTls"],
+    "C03": ["TlsSess", "QuicDissect", "Varint", "QuicDissect2", "TlsSess2"],
     "C04": ["Demux", "QuicSess", "QuicDissect"],
-    "C05": ["Reasm"],
-    "C07": ["Ports"],
-    "C10": ["Ports"],
+    "C05": ["Reasm", "Reasm2"],
+    "C06": ["Builders"],
+    "C07": ["Ports", "Builders"],
+    "C10": ["Ports", "Builders"],
     "C11": ["Checksum"],
-    "C13": ["TlsSess"],
+    "C13": ["TlsSess", "TlsSess2"],
     "C14": ["Suites"],
+    "C15": ["KeySched"],
     "C16": ["Pn"],
     "C17": ["Varint", "Frames"],
     "C18": ["Demux"],
@@ -593,7 +1001,7 @@ def translate_all(root, specs=None):
         head = ["/- GENERATED by harness/translate.py (py2lean) from the Python sources of the tree under test — do not edit.",
                 f"   Group {g}: one definition per translated function; the meaning of the operations is `TLX/PyRt.lean`. -/"]
         head += [f"import {m}" for m in cfg["imports"]]
-        head += ["namespace TLX.Gen.Py", "open TLX", ""] + cfg["decls"]
+        head += cfg.get("options", []) + ["namespace TLX.Gen.Py", "open TLX", ""] + cfg["decls"]
         files[f"Translated/{g}.lean"] = "\n".join(head + body[g] + ["end TLX.Gen.Py", ""])
     files["Translated.lean"] = "\n".join(
         ["/- GENERATED by harness/translate.py — do not edit. All groups of translated definitions. -/"]
@@ -651,7 +1059,623 @@ def _bool(x):
 
 def _exc(e):
     return {IndexError: "index", ZeroDivisionError: "zeroDiv", ValueError: "value", OverflowError: "overflow",
-            KeyError: "key"}.get(type(e))
+            KeyError: "key", AttributeError: "attr", UnboundLocalError: "unbound", TypeError: "type"}.get(type(e))
+
+
+# ---- session.py record handlers (group TlsSess2): the real methods on a `Session` made without `__init__`, a toy
+# decryptor whose state is a counter and a toy `generate_keys` — the same functions on the Lean side
+TOY_DECRYPT = ("(fun (d : Nat) (r : TLX.Session.Rec) (srv : Bool) => let n := d + 1; let h := (n + r.raw.length + (if srv then 1 else 0)) % 5; "
+               "if h = 0 then PyRt.Res.raised PyRt.Err.value n else if h = 1 then PyRt.Res.ok none n else PyRt.Res.ok (some r.body) n)")
+TOY_UPDATE = "(fun (d : Nat) (_srv : Bool) => let n := d + 10; if n % 3 = 0 then PyRt.Res.raised PyRt.Err.value n else PyRt.Res.ok () n)"
+TOY_GENKEYS = ("(fun (_v : Option TLX.Session.Ver) (suite cr _sr : TLX.Bytes) (exts : Option (List (TLX.Bytes × TLX.Bytes))) (comp : Option Nat) (cd : Bool) (dec : Option Nat) => "
+               "let k := (suite.length + (suite.headD 0).toNat + (exts.getD []).length + comp.getD 0) % 4; "
+               "if k = 0 then PyRt.Res.ok () (false, dec) else if k = 1 then PyRt.Res.raised PyRt.Err.value (cd, dec) "
+               "else if k = 2 then PyRt.Res.ok () (cd, some (100 + cr.length)) else PyRt.Res.raised PyRt.Err.key (false, dec))")
+TOY_EXT = {"decrypt": TOY_DECRYPT, "update_keys": TOY_UPDATE, "generate_keys": TOY_GENKEYS}
+
+
+class _ToyDec:
+    def __init__(self, n):
+        self.n = n
+
+    def decrypt(self, record, isserver):
+        self.n += 1
+        h = (self.n + len(record.raw) + (1 if isserver else 0)) % 5
+        if h == 0:
+            raise ValueError("toy")
+        return None if h == 1 else bytes(record.binary)
+
+    def update_keys(self, isserver):
+        self.n += 10
+        if self.n % 3 == 0:
+            raise ValueError("toy")
+
+
+def _toy_generate_keys(self, ver, suite, cr, sr):
+    k = (len(suite) + (suite[0] if len(suite) else 0) + len(self.extensions) + self.compression_method) % 4
+    if k == 0:
+        self.can_decrypt = False
+    elif k == 1:
+        raise ValueError("toy")
+    elif k == 2:
+        self.decryptor = _ToyDec(100 + len(cr))
+    else:
+        self.can_decrypt = False
+        raise KeyError("toy")
+
+
+# ---- key_derivator.py / quic_key_generation.py (group KeySched): the toy hash suites of `TLX.Crypto.toyPrims` on both sides
+def _toy_digest(w, m):
+    s_ = 1
+    for x in m:
+        s_ = (s_ * 31 + x + 7) % 65521
+    return bytes((s_ // (i + 1) + i) % 256 for i in range(w))
+
+
+def _toy_stream(seed, n):
+    return bytes(_toy_digest(1, bytes([i % 256]) + seed)[0] for i in range(n))
+
+
+_TOY_W = {"MD5": 2, "SHA1": 3, "SHA256": 4, "SHA384": 5}
+_MT = "TLX.KeySchedule.MacTag"
+_TOY_MT = {"MD5": f"{_MT}.md5", "SHA1": f"{_MT}.sha1", "SHA256": f"{_MT}.sha256", "SHA384": f"{_MT}.sha384"}
+_SUITE = "(TLX.KeySchedule.macSuite TLX.Crypto.toyPrims t)"
+KS_EXT = {"hmacX": f"(fun t k m => {_SUITE}.hmac k m)", "hashX": f"(fun t m => {_SUITE}.hash m)",
+          "hkdfExpandX": f"(fun t n info ikm => {_SUITE}.hkdfExpand ikm info n)", "hkdfExtractX": f"(fun t salt ikm => {_SUITE}.hkdfExtract salt ikm)",
+          "ceilHalf": "(fun n => (n + 1) / 2)",
+          "digestSize": f"(fun t => match t with | {_MT}.md5 => 16 | {_MT}.sha1 => 20 | {_MT}.sha256 => 32 | {_MT}.sha384 => 48)"}
+
+
+def _w(alg):
+    return _TOY_W[alg.__name__ if isinstance(alg, type) else type(alg).__name__]
+
+
+class _ToyHMAC:
+    def __init__(self, key, alg):
+        self.k, self.w, self.m = bytes(key), _w(alg), b""
+
+    def update(self, x):
+        self.m += bytes(x)
+
+    def finalize(self):
+        return _toy_digest(self.w, self.k + b"\x5c" + self.m)
+
+
+class _ToyHash:
+    def __init__(self, alg):
+        self.w, self.m = _w(alg), b""
+
+    def update(self, x):
+        self.m += bytes(x)
+
+    def finalize(self):
+        return _toy_digest(self.w, self.m)
+
+
+class _ToyHKDFExpand:
+    def __init__(self, algorithm, length, info):
+        self.n, self.info = length, bytes(info)
+
+    def derive(self, key_material):
+        return _toy_stream(bytes(key_material) + b"\xff" + self.info, self.n)
+
+
+class _ToyHKDF:
+    def __init__(self, algorithm, length, salt, info):
+        self.w, self.salt = _w(algorithm), bytes(salt)
+
+    def _extract(self, key_material):
+        return _toy_digest(self.w, self.salt + b"\x36" + bytes(key_material))
+
+
+def _ks_cases(rng, call):
+    """one call of each translated function of the group → [(lean name, arguments, expected)]"""
+    import importlib
+    from types import SimpleNamespace as NS
+    from cryptography.hazmat.primitives import hashes as H
+    from cryptography.hazmat.primitives.ciphers import algorithms as A
+    from cryptography.hazmat.primitives.ciphers.aead import ChaCha20Poly1305
+    kd = importlib.import_module("tlexport.key_derivator")
+    qk = importlib.import_module("tlexport.quic.quic_key_generation")
+    qd = importlib.import_module("tlexport.quic.quic_decode")
+    saved = (kd.hmac, kd.hashes, kd.HKDFExpand, qk.HKDFExpand, qk.HKDF, qk.QuicDecryptor)
+    kd.hmac = NS(HMAC=_ToyHMAC)
+    kd.hashes = NS(SHA256=H.SHA256, SHA384=H.SHA384, MD5=H.MD5, SHA1=H.SHA1, Hash=_ToyHash, HashAlgorithm=H.HashAlgorithm)
+    kd.HKDFExpand = qk.HKDFExpand = _ToyHKDFExpand
+    qk.HKDF = _ToyHKDF
+    qk.QuicDecryptor = lambda keys, cipher, early=False: NS(keys=keys)
+    out = []
+
+    def rb(lo, hi):
+        return bytes(rng.randrange(256) for _ in range(rng.randint(lo, hi)))
+
+    def res(k, v, f=_b):
+        return f".ok {f(v)}" if k == "ok" else f".error .{v}"
+
+    def table(d, opt=False):
+        ent = lambda x: ("none" if x is None else f"(some {_b(x)})") if opt else _b(x)
+        return "[" + ", ".join("([" + ", ".join(str(ord(c)) for c in kk) + "], " + ent(vv) + ")" for kk, vv in d.items()) + "]"
+    try:
+        sec, cr, sr, lab = rb(0, 5), rb(0, 4), rb(0, 4), rb(0, 4)
+        n = rng.choice([0, 1, 3, 7, 12])
+        mac = rng.choice([H.SHA256, H.SHA384, H.MD5, H.SHA1])
+        mt = _TOY_MT[mac.__name__]
+        nk = rng.choice([0, 1])
+        k, v = call(kd.prf_tls_12, sec, cr, sr, lab, n, mac)
+        out.append(("prf_tls_12", f"{KS_EXT['hmacX']} {_b(sec)} {_b(cr)} {_b(sr)} {_b(lab)} {n} {mt}", res(k, v)))
+        k, v = call(kd.prf_tls_10_11, sec, cr, sr, lab, n, nk)
+        out.append(("prf_tls_10_11", f"{KS_EXT['hmacX']} {KS_EXT['ceilHalf']} {_b(sec)} {_b(cr)} {_b(sr)} {_b(lab)} {n} {nk}", res(k, v)))
+        n30 = rng.choice([0, 1, 3, 7, 12, 21, 25])
+        k, v = call(kd.prf_ssl_30, sec, cr, sr, n30, nk)
+        out.append(("prf_ssl_30", f"{KS_EXT['hashX']} {_b(sec)} {_b(cr)} {_b(sr)} {n30} {nk}", res(k, v)))
+        k, v = call(kd.gen_master_secret_tls_12, sec, cr, sr, mac)
+        out.append(("gen_master_secret_tls_12", f"{KS_EXT['hmacX']} {_b(sec)} {_b(cr)} {_b(sr)} {mt}", _b(v)))
+        k, v = call(kd.gen_master_secret_tls_10_11, sec, cr, sr)
+        out.append(("gen_master_secret_tls_10_11", f"{KS_EXT['hmacX']} {KS_EXT['ceilHalf']} {_b(sec)} {_b(cr)} {_b(sr)}", res(k, v)))
+        k, v = call(kd.gen_master_secret_ssl_30, sec, cr, sr)
+        out.append(("gen_master_secret_ssl_30", f"{KS_EXT['hashX']} {_b(sec)} {_b(cr)} {_b(sr)}", res(k, v)))
+        ciph = rng.choice([(A.AES, "aes"), (A.Camellia, "camellia"), (A.TripleDES, "tripleDES"), (A.IDEA, "idea"), (ChaCha20Poly1305, "chacha"), (A.ARC4, "rc4")])
+        ct = f"TLX.KeySchedule.CipherTag.{ciph[1]}"
+        kl_, ml_, ua = rng.choice([0, 1, 2]), rng.choice([0, 1, 2]), rng.choice([0, 1])
+        kbl = 2 * kl_ + 2 * ml_
+        k, v = call(kd.dev_tls_12_keys, sec, cr, sr, kl_, ml_, kbl, ciph[0], ua, mac)
+        out.append(("dev_tls_12_keys", f"{KS_EXT['hmacX']} {_b(sec)} {_b(cr)} {_b(sr)} {kl_} {ml_} {kbl} {ct} {ua} {mt}", res(k, v, table)))
+        k, v = call(kd.dev_tls_10_11_keys, sec, sr, cr, kl_, ml_, kbl, ciph[0], ua)
+        out.append(("dev_tls_10_11_keys", f"{KS_EXT['hmacX']} {KS_EXT['ceilHalf']} {_b(sec)} {_b(sr)} {_b(cr)} {kl_} {ml_} {kbl} {ct} {ua}", res(k, v, table)))
+        k, v = call(kd.dev_ssl_30_keys, sec, sr, cr, kl_, ml_, kbl, ciph[0], ua)
+        out.append(("dev_ssl_30_keys", f"{KS_EXT['hashX']} {_b(sec)} {_b(sr)} {_b(cr)} {kl_} {ml_} {kbl} {ct} {ua}", res(k, v, table)))
+        lbl, kl2 = rb(0, 12), rng.choice([0, 16, 32, 255, 65535, 65536, 70000])
+        k, v = call(qk.make_info, lbl, kl2)
+        out.append(("make_info", f"{_b(lbl)} {kl2}", res(k, v)))
+        names = ["CLIENT_HANDSHAKE_TRAFFIC_SECRET", "SERVER_HANDSHAKE_TRAFFIC_SECRET", "CLIENT_TRAFFIC_SECRET_0", "SERVER_TRAFFIC_SECRET_0",
+                 "CLIENT_EARLY_TRAFFIC_SECRET", "SERVER_EARLY_TRAFFIC_SECRET", "CLIENT_RANDOM", "EXPORTER_SECRET"]
+        picks = [(nm, rb(0, 4)) for nm in names if rng.random() < 0.8] + [(rng.choice(names), rb(1, 3)) for _ in range(rng.randint(0, 2))]
+        rng.shuffle(picks)
+        secs = [NS(label=a, value=b_.hex()) for a, b_ in picks]
+        ssl = "[" + ", ".join("([" + ", ".join(str(ord(c)) for c in a) + "], " + _b(b_) + ")" for a, b_ in picks) + "]"
+        kl3 = rng.choice([1, 2, 16, 70000]) if rng.random() < 0.9 else 65535
+        k, v = call(kd.dev_tls_13_keys, secs, kl3 if kl3 != 65535 else 3, mac())
+        out.append(("dev_tls_13_keys", f"{KS_EXT['hkdfExpandX']} {ssl} {kl3 if kl3 != 65535 else 3} {mt}", res(k, v, lambda d: table(d, True))))
+        cid = rb(0, 5)
+        ver = rng.choice([(qd.QuicVersion.V1, "v1"), (qd.QuicVersion.V2, "v2"), (qd.QuicVersion.UNKNOWN, "unknown")])
+        qv = f"TLX.KeySchedule.QuicVersion.{ver[1]}"
+        cha = rng.random() < 0.5
+        k, v = call(qk.dev_initial_keys, cid, ver[0], cha)
+        out.append(("dev_initial_keys", f"{KS_EXT['hkdfExpandX']} {KS_EXT['hkdfExtractX']} {_b(cid)} {qv} {_bool(cha)}",
+                    (".ok none" if v is None else f".ok (some {table(v)})") if k == "ok" else f".error .{v}"))
+        keys = [rb(0, 3) for _ in range(rng.choice([0, 4, 5, 6, 6, 6]))]
+        hcls = rng.choice([H.SHA256, H.SHA384])
+        kl4 = rng.choice([1, 2, 16])
+        k, v = call(qk.key_update, NS(keys=list(keys)), hcls, kl4, None, ver[0])
+        out.append(("key_update", f"{KS_EXT['hkdfExpandX']} {KS_EXT['digestSize']} {_TOY_MT[hcls.__name__]} {kl4} {qv} [" + ", ".join(_b(x) for x in keys) + "]",
+                    f".ok {{ keys := [" + ", ".join(_b(x) for x in v.keys) + "] }" if k == "ok" else f".error .{v}"))
+        kl5 = rng.choice([1, 2, 70000]) if rng.random() < 0.95 else 70000
+        k, v = call(qk.dev_quic_keys, kl5, secs, mac(), ver[0])
+        out.append(("dev_quic_keys", f"{KS_EXT['hkdfExpandX']} {kl5} {ssl} {mt} {qv}", res(k, v, lambda d: table(d, True))))
+    finally:
+        kd.hmac, kd.hashes, kd.HKDFExpand, qk.HKDFExpand, qk.HKDF, qk.QuicDecryptor = saved
+    return out
+
+
+# ---- output builders (group Builders): scapy's layer classes replaced by recorders of their keyword arguments
+class _Lay:
+    def __init__(self, name, kw):
+        self.layers = [(name, kw)]
+
+    def __truediv__(self, other):
+        r = _Lay(None, None)
+        r.layers = self.layers + other.layers
+        return r
+
+
+def _layer(name):
+    def mk(*a, **kw):
+        if a:
+            kw = dict(kw, load=a[0])
+        return _Lay(name, kw)
+    return mk
+
+
+def _lstr(x):
+    return "[" + ", ".join(str(ord(ch)) for ch in x) + "]"
+
+
+def _addr(x):
+    return f"(Sum.inl {_lstr(x)})" if isinstance(x, str) else f"(Sum.inr {_b(x)})"
+
+
+def _layers(p):
+    out = []
+    for name, kw in p.layers:
+        if name == "Ether":
+            out.append(f"Gen.Py.Layer.ether {_b(kw['src'])} {_b(kw['dst'])}")
+        elif name in ("IP", "IPv6"):
+            out.append(f"Gen.Py.Layer.ip {_bool(name == 'IPv6')} {_addr(kw['src'])} {_addr(kw['dst'])}")
+        elif name == "UDP":
+            out.append(f"Gen.Py.Layer.udp {kw['dport']} {kw['sport']}")
+        elif name == "TCP":
+            out.append(f"Gen.Py.Layer.tcp {kw['dport']} {kw['sport']} {_lstr(kw['flags'])} {kw['seq']} {kw['ack']}")
+        else:
+            out.append(f"Gen.Py.Layer.raw {_b(kw['load'])}")
+    return "[" + ", ".join(out) + "]"
+
+
+FDIV_LEAN = "(fun a b => if b = 0 then Except.error PyRt.Err.zeroDiv else Except.ok ((a.toNat / b.toNat : Nat) : Int))"
+
+
+def _bld_cases(rng, call):
+    import importlib
+    from types import SimpleNamespace as NS
+    ob = importlib.import_module("tlexport.output_builder")
+    qob = importlib.import_module("tlexport.quic.quic_output_builder")
+    names = ["Ether", "IP", "IPv6", "TCP", "Raw"]
+    qnames = ["Ether", "IP", "IPv6", "UDP", "Raw"]
+    saved = [getattr(ob, n) for n in names], [getattr(qob, n) for n in qnames]
+    for n in names:
+        setattr(ob, n, _layer(n))
+    for n in qnames:
+        setattr(qob, n, _layer(n))
+    out = []
+
+    def rb(lo, hi):
+        return bytes(rng.randrange(256) for _ in range(rng.randint(lo, hi)))
+    try:
+        v6 = rng.random() < 0.4
+        addr = dict(server_mac=b"\x02\x01", client_mac=b"\x02\x02", server_ip="10.0.0.1", client_ip="fe80::2", server_port=8443, client_port=5000)
+        largs = f"{_b(addr['server_mac'])} {_b(addr['client_mac'])} {_lstr(addr['server_ip'])} {_lstr(addr['client_ip'])} 8443 5000 {_bool(v6)}"
+        # QUIC
+        md = rng.random() < 0.5
+        frames = []
+        tcur, scur = rng.randrange(3), rng.random() < 0.5
+        for _ in range(rng.randint(0, 6)):
+            if rng.random() < 0.4:
+                tcur, scur = rng.randrange(3), rng.random() < 0.5
+            ft = rng.choice([0x06, 0xfe, 0x08, 0x0a, 0x0f, 0x01, 0x1c])
+            dat = rb(0, 3)
+            frames.append(NS(frame_type=ft, crypto=dat, payload=dat, stream_data=dat, src_packet=NS(ts=tcur, isserver=scur)))
+        b_ = object.__new__(qob.QUICOutputbuilder)
+        b_.decrypted_traffic, b_.out, b_.ipv6 = frames, [], v6
+        b_.server_mac_address, b_.client_mac_address = addr["server_mac"], addr["client_mac"]
+        b_.server_ip, b_.client_ip, b_.server_port, b_.client_port = addr["server_ip"], addr["client_ip"], 8443, 5000
+        k, v = call(b_.build, md)
+        fl = "[" + ", ".join(f"(⟨{f.frame_type}, {f.src_packet.ts}, {_bool(f.src_packet.isserver)}, {_b(f.crypto)}⟩ : TLX.Quic.UdpOut.Frame)" for f in frames) + "]"
+        ol = "[" + ", ".join(f"({_layers(p)}, some {t})" for p, t in b_.out) + "]"
+        out.append(("quic_build", f"{_bool(md)} {fl} [] {largs}", f".ok {ol} {{ out := {ol} }}" if k == "ok" else f".raised .{v} {{ out := {ol} }}"))
+        # TCP
+        recs = []
+        for _ in range(rng.randint(0, 3)):
+            nts = rng.choice([1, 1, 2, 3, 0]) if rng.random() < 0.9 else 0
+            recs.append((rb(0, 7) if rng.random() < 0.85 else None, [rng.randrange(50) for _ in range(nts)], rng.random() < 0.5))
+        t_ = object.__new__(ob.OutputBuilder)
+        t_.decrypted_records = [(d, NS(metadata=[NS(timestamp=x) for x in tl]), sv) for d, tl, sv in recs]
+        t_.out, t_.server_seq, t_.client_seq, t_.ipv6 = [], 1, 1, v6
+        t_.server_mac_addr, t_.client_mac_addr = addr["server_mac"], addr["client_mac"]
+        t_.server_ip, t_.client_ip, t_.server_port, t_.client_port = addr["server_ip"], addr["client_ip"], 8443, 5000
+        k, v = call(t_.build)
+        rl = "[" + ", ".join(f"({'none' if d is None else '(some ' + _b(d) + ')'}, [{', '.join(str(x) for x in tl)}], {_bool(sv)})" for d, tl, sv in recs) + "]"
+
+        def st_():
+            ol_ = "[" + ", ".join(f"({_layers(p)}, {t})" for p, t in t_.out) + "]"
+            tz = getattr(t_, "ts_zero", None)
+            return (f"{{ out := {ol_}, server_seq := {t_.server_seq}, client_seq := {t_.client_seq}, ts_zero := {'none' if tz is None else '(some ' + str(tz) + ')'}, "
+                    f"conn_reset := {_bool(getattr(t_, 'conn_reset', False))}, no_application_records := {_bool(t_.no_application_records)} }}")
+        rv = ("[" + ", ".join(f"({_layers(p)}, {t})" for p, t in v) + "]") if k == "ok" else None
+        init = "{ out := [], server_seq := 1, client_seq := 1, ts_zero := none, conn_reset := false, no_application_records := false }"
+        out.append(("Tcp.build", f"{FDIV_LEAN} {largs} {rl} {init}", f".ok {rv} {st_()}" if k == "ok" else f".raised .{v} {st_()}"))
+    finally:
+        for n, o in zip(names, saved[0]):
+            setattr(ob, n, o)
+        for n, o in zip(qnames, saved[1]):
+            setattr(qob, n, o)
+    return out
+
+
+# ---- decryptor.py (group Decrypt): toy AEAD classes on both sides; logging stays real (its f-strings are evaluated)
+TOY_AEAD = ("(fun (o : Gen.Py.AeadObj) (nonce ct aad : TLX.Bytes) => if ct.length < 1 ∨ o.key.length < 1 ∨ nonce.length < 1 then Except.error PyRt.Err.value "
+            "else Except.ok (ct.map fun b => b ^^^ o.key.headD 0 ^^^ nonce.getLastD 0 ^^^ UInt8.ofNat aad.length ^^^ "
+            "UInt8.ofNat (match o.alg with | TLX.Cipher.Alg.aesgcm => 1 | TLX.Cipher.Alg.aesccm => 2 + o.tag.getD 0 | _ => 3)))")
+TOY_INFLATE = "(fun (b : TLX.Bytes) (_s : Bool) => Except.ok b)"
+
+
+def _toy_aead_cls(tagbyte):
+    class C:
+        def __init__(self, key, tag_length=None):
+            self.key, self.t = bytes(key), (tagbyte if tag_length is None else 2 + tag_length)
+
+        def decrypt(self, nonce, data, aad):
+            if len(data) < 1 or len(self.key) < 1 or len(nonce) < 1:
+                raise ValueError("toy")
+            return bytes(x ^ self.key[0] ^ nonce[-1] ^ (len(aad) % 256) ^ (self.t % 256) for x in data)
+    return C
+
+
+def _dec_cases(rng, call):
+    import importlib
+    from types import SimpleNamespace as NS
+    dm = importlib.import_module("tlexport.decryptor")
+    from tlexport.tlsversion import TlsVersion as TV
+    from tlexport.tlsrecord import TlsRecord
+    saved = (dm.AESGCM, dm.AESCCM, dm.ChaCha20Poly1305)
+    G, C_, P_ = _toy_aead_cls(1), _toy_aead_cls(2), _toy_aead_cls(3)
+    dm.AESGCM, dm.AESCCM, dm.ChaCha20Poly1305 = G, C_, P_
+    out = []
+
+    def rb(lo, hi):
+        return bytes(rng.randrange(256) for _ in range(rng.randint(lo, hi)))
+
+    def ob(x):
+        return "none" if x is None else f"(some {_b(x)})"
+    MISSING = object()
+
+    def oob(x):
+        return "none" if x is MISSING else f"(some {ob(x)})"
+    try:
+        a, b_ = rb(0, 5), rb(0, 5)
+        k, v = call(dm.byte_xor, a, b_)
+        out.append(("Dec.byte_xor", f"{_b(a)} {_b(b_)}", f".ok {_b(v)}" if k == "ok" else f".error .{v}"))
+        algs = [(dm.AES, "aes"), (dm.TripleDES, "tdes"), (dm.Camellia, "camellia"), (dm.IDEA, "idea"), (C_, "aesccm"), (G, "aesgcm"),
+                (dm.ChaCha20, "chacha20"), (P_, "chachaPoly"), (dm.ARC4, "arc4"), (None, "none")]
+        vers = [(TV.SSL30, "ssl30"), (TV.TLS10, "tls10"), (TV.TLS11, "tls11"), (TV.TLS12, "tls12"), (TV.TLS13, "tls13")]
+        ctys = {"EncryptionType.Stream_Cipher": "stream", "EncryptionType.Block_Cipher": "block", "EncryptionType.AEAD": "aead", "EncryptionType.Unknown": "unknown"}
+        for func in ("get_cipher_type", "update_keys", "decrypt_tls13_aead", "decrypt_tls13_stream_cipher", "decrypt_tls12_chacha20", "decrypt_tls12_aead", "decrypt"):
+            alg = rng.choice(algs if func in ("get_cipher_type", "decrypt") else [algs[4], algs[5], algs[5], algs[7], algs[0]])
+            ver = rng.choice(vers)
+            o = object.__new__(dm.Decryptor)
+            o.bulk_alg, o.tls_version = alg[0], ver[0]
+            o.mac_length, o.tag_length, o.block_length = rng.choice([0, 20, 32]), rng.choice([8, 16]), rng.choice([0, 64, 128])
+            o.encrypt_then_mac, o.compression_method = rng.random() < 0.5, 0
+            for dname in ("server", "client"):
+                setattr(o, dname + "_key", rb(1, 3) if rng.random() < 0.85 else None)
+                setattr(o, dname + "_iv", rng.choice([rb(8, 12), rb(12, 12), rb(0, 7)]) if rng.random() < 0.9 else None)
+                setattr(o, dname + "_seq", rng.choice([0, 1, 7, 2 ** 64 - 1, 2 ** 64]))
+                if rng.random() < 0.85:
+                    for kname in ("handshake_key", "handshake_iv", "application_key", "application_iv"):
+                        setattr(o, f"{dname}_{kname}", rb(1, 2) if rng.random() < 0.9 else None)
+            if func != "get_cipher_type":
+                o.cipher_type = rng.choice([dm.EncryptionType.AEAD, dm.EncryptionType.Stream_Cipher, dm.EncryptionType.Block_Cipher, dm.EncryptionType.Unknown])
+                if func == "decrypt" and rng.random() < 0.7:
+                    o.get_cipher_type()
+
+            def state():
+                g = lambda n: getattr(o, n, MISSING)
+                ct = g("cipher_type")
+                return ("{ " + ", ".join(
+                    [f"{d_}_{k_} := {ob(g(d_ + '_' + k_))}" for d_ in ("server", "client") for k_ in ("key", "iv")]
+                    + [f"server_seq := {o.server_seq}, client_seq := {o.client_seq}, last_block_server := none, last_block_client := none"]
+                    + [f"{d_}_{k_} := {oob(g(d_ + '_' + k_))}" for d_ in ("server", "client") for k_ in ("handshake_key", "handshake_iv", "application_key", "application_iv")]
+                    + [f"cipher_type := {'none' if ct is MISSING else '(some TLX.RecordLayer.CType.' + ctys[str(ct)] + ')'}"]) + " }")
+            cfg = (f"TLX.RecordLayer.Version.{ver[1]} TLX.Cipher.Alg.{alg[1]} {o.mac_length} {o.tag_length} {o.block_length} {_bool(o.encrypt_then_mac)} 0")
+            before = state()
+            raw = bytes([rng.choice([0x16, 0x17])]) + b"\x03\x03" + b"\x00\x00" + rb(0, 20)
+            rec = TlsRecord(bytearray(raw), [], False)
+            recl = (f"(⟨{raw[0]}, {_b(raw[1:3])}, {_b(raw[3:5])}, {_b(raw[5:])}, {_b(raw)}⟩ : TLX.RecordLayer.Rec)")
+            srv = rng.random() < 0.5
+            import logging
+            logging.disable(logging.CRITICAL)
+            try:
+                if func == "get_cipher_type":
+                    k, v = call(o.get_cipher_type)
+                    out.append(("Dec.get_cipher_type", f"{cfg} {before}", f".ok () {state()}" if k == "ok" else f".raised .{v} {state()}"))
+                elif func == "update_keys":
+                    k, v = call(o.update_keys, srv)
+                    out.append(("Dec.update_keys", f"{_bool(srv)} {cfg} {before}", f".ok () {state()}" if k == "ok" else f".raised .{v} {state()}"))
+                elif func == "decrypt":
+                    names = ["decrypt_tls13_aead", "decrypt_tls13_stream_cipher", "decrypt_tls12_chacha20", "decrypt_generic_stream_cipher",
+                             "decrypt_tls12_aead", "decrypt_tls12_block_cipher", "decrypt_last_block_iv_cbc"]
+                    for j, nm in enumerate(names):
+                        def toy(record, isserver, j=j):
+                            o.server_seq += j + 1
+                            if (j + len(record.binary)) % 4 == 0:
+                                raise KeyError("toy")
+                            return bytes([j])
+                        setattr(o, nm, toy)
+                    k, v = call(o.decrypt, rec, srv)
+                    toys = " ".join(f"(fun (st : Gen.Py.Dec.St) (r : TLX.RecordLayer.Rec) (_s : Bool) => let st' := {{ st with server_seq := st.server_seq + {j + 1} }}; "
+                                    f"if ({j} + r.body.length) % 4 = 0 then PyRt.Res.raised PyRt.Err.key st' else PyRt.Res.ok [{j}] st')" for j in range(7))
+                    out.append(("Dec.decrypt", f"{toys} {recl} {_bool(srv)} {cfg} {before}",
+                                (f".ok {ob(v)} {state()}") if k == "ok" else f".raised .{v} {state()}"))
+                else:
+                    k, v = call(getattr(o, func), rec, srv)
+                    out.append(("Dec." + func, f"{TOY_AEAD} {TOY_INFLATE} {recl} {_bool(srv)} {cfg} {before}",
+                                f".ok {_b(v)} {state()}" if k == "ok" else f".raised .{v} {state()}"))
+            finally:
+                logging.disable(logging.NOTSET)
+    finally:
+        dm.AESGCM, dm.AESCCM, dm.ChaCha20Poly1305 = saved
+    return out
+
+
+# ---- quic_tls_parser.py (group QuicTls)
+def _qtls_cases(rng, call):
+    import importlib
+    qt = importlib.import_module("tlexport.quic.quic_tls_parser")
+    out = []
+    MISSING = object()
+
+    def rb(lo, hi):
+        return bytes(rng.randrange(256) for _ in range(rng.randint(lo, hi)))
+
+    def ob(x):
+        return "none" if x is None or x is MISSING else f"(some {_b(x)})"
+
+    def vint(n):
+        return bytes([n]) if n < 64 else (0x4000 | n).to_bytes(2, "big")
+
+    def tparams():
+        b_ = b""
+        for _ in range(rng.randint(0, 3)):
+            body = rb(0, 3)
+            b_ += vint(rng.choice([1, 4, 0x2ab2, 0x2ab2, 63])) + vint(len(body) + rng.choice([0, 0, 0, 2])) + body
+        return b_[:rng.randint(0, len(b_))] if rng.random() < 0.3 else b_
+
+    def exts():
+        b_ = b""
+        for _ in range(rng.randint(0, 4)):
+            t = rng.choice([43, 16, 57, 57, 10])
+            if t == 43:
+                body = rng.choice([b"\x03\x04", b"\x03", rb(0, 3)])
+            elif t == 16:
+                nm = rb(0, 4)
+                body = rng.choice([b"\x00" + bytes([len(nm) + 1, len(nm)]) + nm, b"\x00\x05\x09ab", rb(0, 2), b"\x00\x02\x00"])
+            elif t == 57:
+                body = tparams()
+            else:
+                body = rb(0, 3)
+            b_ += t.to_bytes(2, "big") + (len(body) + rng.choice([0, 0, 0, 0, 1])).to_bytes(2, "big") + body
+        return (len(b_) + rng.choice([0, 0, 0, 0, 1])).to_bytes(2, "big") + b_
+
+    def state(o):
+        g = lambda n: getattr(o, n, MISSING)
+        return (f"{{ client_random := {ob(o.client_random)}, ciphersuite := {ob(o.ciphersuite)}, alpn := {ob(o.alpn)}, tls_vers := {ob(o.tls_vers)}, "
+                f"greasy_bit := {_bool(o.greasy_bit)}, new_data := {_bool(o.new_data)}, session_id := {ob(g('session_id'))} }}")
+    for func in ("get_quic_transport_parameters", "get_extensions", "handle_client_hello", "handle_server_hello", "handle_encrypted_extensions", "handle_record"):
+        o = qt.QuicTlsSession()
+        if rng.random() < 0.4:
+            o.alpn, o.tls_vers, o.greasy_bit = b"h3", b"\x03\x03", rng.random() < 0.3
+        before = state(o)
+        sid = rb(0, 3)
+        suites = rb(0, 2) + rb(2, 2) * rng.randint(0, 2)
+        chb = b"\x03\x03" + rb(32, 32) + bytes([len(sid)]) + sid + len(suites).to_bytes(2, "big") + suites + b"\x01\x00" + exts()
+        ch = b"\x01" + (len(chb) + rng.choice([0, 0, 0, 3])).to_bytes(3, "big") + chb
+        shb = b"\x03\x03" + rb(32, 32) + bytes([len(sid)]) + sid + rb(2, 2) + b"\x00" + exts()
+        sh = b"\x02" + len(shb).to_bytes(3, "big") + shb
+        eeb = exts()
+        ee = b"\x08" + len(eeb).to_bytes(3, "big") + eeb
+        msg = rng.choice([ch, sh, ee])
+        if rng.random() < 0.25:
+            msg = msg[:rng.randint(0, len(msg))]
+        if func == "get_quic_transport_parameters":
+            arg = tparams()
+            k, v = call(o.get_quic_transport_parameters, arg)
+            largs = _b(arg)
+        elif func == "get_extensions":
+            arg = exts() if rng.random() < 0.9 else rb(0, 5)
+            k, v = call(o.get_extensions, arg)
+            largs = _b(arg)
+        elif func == "handle_record":
+            t = rng.choice([msg[0] if msg else 1, 1, 2, 8, 11])
+            k, v = call(o.handle_record, t, msg)
+            largs = f"{t} {_b(msg)}"
+        else:
+            arg = {"handle_client_hello": ch, "handle_server_hello": sh, "handle_encrypted_extensions": ee}[func]
+            if rng.random() < 0.3:
+                arg = arg[:rng.randint(0, len(arg))]
+            k, v = call(getattr(o, func), arg)
+            largs = _b(arg)
+        out.append(("QTls." + func, f"{largs} {before}", f".ok () {state(o)}" if k == "ok" else f".raised .{v} {state(o)}"))
+    return out
+
+
+def _sess_case(rng, ses, vers, call):
+    """one call of one of the record handlers on a random session state → (lean name, arguments, expected)"""
+    import types
+    from tlexport.tlsrecord import TlsRecord
+    MISSING = object()
+
+    def rb(lo, hi):
+        return bytes(rng.randrange(256) for _ in range(rng.randint(lo, hi)))
+
+    def hs_msgs():
+        out = b""
+        for _ in range(rng.randint(0, 3)):
+            body = rb(0, 5)
+            out += bytes([rng.choice([20, 20, 4, 8])]) + len(body).to_bytes(3, "big") + body
+        return out[:rng.randint(0, len(out))] if rng.random() < 0.3 else out
+
+    def server_hello():
+        exts = b""
+        for _ in range(rng.randint(0, 3)):
+            t = rng.choice([b"\x00\x2b", b"\x00\x2b", b"\x00\x17", b"\xff\x01"])
+            v = rng.choice([b"\x03\x04", b"\x03\x03", b"", rb(0, 3)])
+            exts += t + len(v).to_bytes(2, "big") + v
+        sid = rb(0, 4)
+        b = (b"\x02" + rb(3, 3) + rng.choice([b"\x03\x03", b"\x03\x01", b"\x03\x02", b"\x03\x00", b"\x02\x00"]) + rb(32, 32)
+             + bytes([len(sid)]) + sid + rng.choice([b"\x13\x01", b"\x00\x2f", b"\xc0\x30", rb(2, 2)]) + bytes([rng.choice([0, 0, 1])])
+             + (len(exts) + rng.choice([0, 0, 0, 2, -1]) * (1 if exts else 0)).to_bytes(2, "big") + exts)
+        return b[:rng.randint(0, len(b))] if rng.random() < 0.25 else b
+    func = rng.choice(["handle_alert", "handle_tls_client_hello", "handle_tls_server_hello", "handle_tls_server_hello",
+                       "handle_handshake_finished", "handle_tls_handshake_record", "handle_tls_handshake_record",
+                       "handle_decrypted_tls_13_handshake_record", "handle_tls_13_application_record", "handle_tls_13_application_record",
+                       "handle_tls_application_record", "handle_tls_record", "handle_tls_record", "handle_tls_record"])
+    srv = rng.random() < 0.5
+    typ = rng.choice([0x16, 0x16, 0x17, 0x17, 0x15, 0x14, 0x18])
+    if func in ("handle_tls_handshake_record", "handle_tls_server_hello", "handle_tls_client_hello", "handle_handshake_finished"):
+        typ = 0x16
+    if func in ("handle_tls_13_application_record", "handle_tls_application_record"):
+        typ = 0x17
+    if typ == 0x16:
+        body = rng.choice([server_hello(), server_hello(), b"\x01" + rb(0, 45), b"\x0b" + rb(0, 6), b""])
+        if func == "handle_tls_server_hello":
+            body = server_hello()
+    elif typ == 0x17:
+        inner = rng.choice([hs_msgs() + b"\x16", rb(0, 6) + b"\x17", rb(0, 3) + b"\x15", b"", rb(0, 4)])
+        body = inner + bytes(rng.choice([0, 0, 2]))
+    else:
+        body = rb(0, 3)
+    raw = bytes([typ]) + rng.choice([b"\x03\x03", b"\x03\x01", b"\x03\x00", b"\x03\x02"]) + len(body).to_bytes(2, "big") + body
+    record = TlsRecord(bytearray(raw), [], srv)
+    other = TlsRecord(bytearray(b"\x17\x03\x03\x00\x01\x09"), [], False)
+    me = object.__new__(ses.Session)
+    me.can_decrypt = rng.random() < 0.7
+    me.client_hello_seen = rng.random() < 0.7
+    me.tls_version = rng.choice([None] + list(vers) + [ses.TlsVersion.TLS13] * 3)
+    me.server_cipher_change, me.client_cipher_change = rng.random() < 0.4, rng.random() < 0.4
+    me.decryptor = _ToyDec(rng.randrange(10)) if rng.random() < 0.8 else None
+    if rng.random() < 0.8:
+        me.client_random = bytearray(rb(32, 32))
+    if rng.random() < 0.3:
+        me.server_random, me.ciphersuite, me.compression_method, me.extensions = bytearray(rb(32, 32)), bytearray(rb(2, 2)), 0, {b"\x00\x17": bytearray()}
+    me.application_traffic = [(b"old", other, False)] if rng.random() < 0.5 else []
+    me.handshake_13_buffer = {k: v for k, v in ((False, rng.choice([b"", b"\x14\x00", b"\x08\x00\x00"])), (True, rng.choice([b"", b"\x14\x00\x00"])))
+                              if rng.random() < 0.6}
+    me.exp_meta = rng.random() < 0.5
+    me.server_ip = me.client_ip = b"\x0a\x00\x00\x01"
+    me.server_port = me.client_port = 1
+    me.ipv6 = False
+    me.generate_keys = types.MethodType(_toy_generate_keys, me)
+    recs = {id(record): raw, id(other): bytes(other.raw)}
+
+    def rec(r):
+        return f"(⟨{_b(recs[id(r)])}, []⟩ : TLX.Session.Rec)"
+
+    def ob(x):
+        return "none" if x is None or x is MISSING else f"(some {_b(x)})"
+
+    def state():
+        g = lambda a: getattr(me, a, MISSING)
+        ver = "none" if me.tls_version is None else f"(some {vers[me.tls_version]})"
+        ex = g("extensions")
+        exl = "none" if ex is MISSING else "(some [" + ", ".join(f"({_b(k)}, {_b(v)})" for k, v in ex.items()) + "])"
+        cm = g("compression_method")
+        tr = "[" + ", ".join(f"({ob(d)}, {rec(r)}, {_bool(s_)})" for d, r, s_ in me.application_traffic) + "]"
+        hb = me.handshake_13_buffer
+        return (f"{{ can_decrypt := {_bool(me.can_decrypt)}, client_hello_seen := {_bool(me.client_hello_seen)}, tls_version := {ver}, "
+                f"server_cipher_change := {_bool(me.server_cipher_change)}, client_cipher_change := {_bool(me.client_cipher_change)}, "
+                f"decryptor := {'none' if me.decryptor is None else '(some ' + str(me.decryptor.n) + ')'}, client_random := {ob(g('client_random'))}, "
+                f"server_random := {ob(g('server_random'))}, ciphersuite := {ob(g('ciphersuite'))}, "
+                f"compression_method := {'none' if cm is MISSING else '(some ' + str(cm) + ')'}, extensions := {exl}, "
+                f"application_traffic := {tr}, handshake_13_buffer := ({_b(hb.get(False, b''))}, {_b(hb.get(True, b''))}) }}")
+    before = state()
+    if func == "handle_alert":
+        lvl = rng.choice([0, 1, 2, 1, 255])
+        pyargs, largs = (lvl,), str(lvl)
+    elif func in ("handle_tls_client_hello", "handle_tls_server_hello"):
+        pyargs, largs = (record,), rec(record)
+    elif func == "handle_decrypted_tls_13_handshake_record":
+        pt = hs_msgs()
+        pyargs, largs = (pt, srv), f"{_b(pt)} {_bool(srv)}"
+    else:
+        pyargs, largs = (record, srv), f"{rec(record)} {_bool(srv)}"
+    import logging
+    logging.disable(logging.CRITICAL)
+    try:
+        k, v = call(getattr(ses.Session, func), me, *pyargs)
+    finally:
+        logging.disable(logging.NOTSET)
+    exts = " ".join(TOY_EXT[e] for e in SESS_NEEDS[func])
+    head = f"(δ := Nat) {exts}".rstrip()
+    return ("Sess." + func, f"{head} {largs} {_bool(me.exp_meta)} {before}",
+            (f".ok () {state()}" if k == "ok" else f".raised .{v} {state()}"))
 
 
 def _frame(f):
@@ -925,6 +1949,43 @@ def _cases(rng, n):
                     f"client_cipher_change := {_bool(me.client_cipher_change)}, "
                     f"handshake_13_buffer := ({_b(hb.get(False, b''))}, {_b(hb.get(True, b''))}), "
                     f"client_random := some {_b(me.client_random)}, client_hello_seen := {_bool(me.client_hello_seen)} }}"))
+        for _ in range(4):
+            out.append(_sess_case(rng, ses, vers, call))
+        from tlexport.tlsrecord import TlsRecord
+        rawr = rb(0, 9)
+        me = NS()
+        k, v = call(TlsRecord.__init__, me, rawr, [], False)
+        out.append(("TlsRecord_init", _b(rawr), (f".ok {{ binary_ := {_b(me.binary)}, record_type := {me.record_type}, record_version := {_b(me.record_version)}, "
+                                                 f"record_length := {_b(me.record_length)}, raw := {_b(me.raw)} }}") if k == "ok" else f".error .{v}"))
+        # extract_*_buf, the framing part: a sorted contiguous buffer with the next expected sequence number known, so that the
+        # part of the function before the fragment changes nothing and `base` is that number
+        for side in ("server", "client"):
+            stream = b"".join(bytes([rng.choice([0x16, 0x17])]) + b"\x03\x03" + len(bd).to_bytes(2, "big") + bd
+                              for bd in (rb(0, 6) for _ in range(rng.randint(0, 3))))
+            if rng.random() < 0.4:
+                stream = stream[:rng.randint(0, len(stream))] if stream else stream
+            base = rng.choice([0, 5, 2 ** 32 - 3, 2 ** 32 - 1, 1000])
+            cuts = sorted(rng.randrange(1, len(stream)) for _ in range(rng.randint(0, 2))) if len(stream) > 1 else []
+            pieces = [stream[a:b] for a, b in zip([0] + cuts, cuts + [len(stream)])] or [b"\x16"]
+            pieces = [pc for pc in pieces if pc] or [b"\x16"]
+            pkts, off = [], 0
+            for j, pc in enumerate(pieces):
+                pkts.append(NS(ident=j + 1, seq=(base + off) % 2 ** 32, tls_data=pc))
+                off += len(pc)
+            me = NS(**{f"{side}_counter": 0, f"{side}_next_seq": base, f"{side}_packet_buffer": list(pkts), f"{side}_tls_records": []})
+            k, v = call(getattr(ses.Session, f"extract_{side}_buf"), me)
+            sg = lambda q: f"(⟨{q.ident}, {q.seq}, {_b(q.tls_data)}⟩ : TLX.Reassembly.Seg)"
+            segs = lambda qs: "[" + ", ".join(sg(q) for q in qs) + "]"
+            recs = "[" + ", ".join(f"{{ binary := {_b(t_.raw)}, metadata := {segs(t_.metadata)} }}" for t_ in getattr(me, f"{side}_tls_records")) + "]"
+            nxt = getattr(me, f"{side}_next_seq")
+            out.append((f"extract_{side}_frame", f"{base} {segs(pkts)} [] (some {base})",
+                        f".ok () {{ packet_buffer := {segs(getattr(me, side + '_packet_buffer'))}, tls_records := {recs}, next_seq := (some {nxt}) }}"
+                        if k == "ok" else f".raised .{v} {{ packet_buffer := [], tls_records := [], next_seq := none }}"))
+        out.extend(_ks_cases(rng, call))
+        out.extend(_dec_cases(rng, call))
+        out.extend(_qtls_cases(rng, call))
+        for _ in range(2):
+            out.extend(_bld_cases(rng, call))
         # output builders
         pm = rng.choice([{}, {443: 8443}, {443: 8443, 5000: 1}])
         sp, keep = rng.choice([443, 5000, 80]), rng.random() < 0.5
@@ -957,12 +2018,12 @@ OUTSIDE = [
     ("def f(x):\n    return x[::2]\n", [("x", "Bytes")], "Bytes"),
     ("def f(x):\n    for i in x:\n        pass\n    return 0\n", [("x", "Int")], "Int"),
     ("def f(x):\n    k = 255\n    for t in x:\n        k = t\n    return 0\n", [("x", "List Bytes")], "Int"),
-    ("def f(x):\n    for i in range(3):\n        if i == x:\n            continue\n    return 0\n", [("x", "Int")], "Int"),
+    ("def f(x):\n    with x:\n        return 0\n", [("x", "Int")], "Int"),
     ("def f(x):\n    while x > 0:\n        x -= 1\n    else:\n        x = 5\n    return x\n", [("x", "Int")], "Int"),
     ("def f(x):\n    try:\n        return x[0]\n    except KeyError:\n        return 1\n    finally:\n        pass\n", [("x", "Bytes")], "Int"),
     ("def f(d, k):\n    return d[k] in \"ab\"\n", [("d", "Table Str; Nat"), ("k", "Str")], "Bool"),
     ("def f(x):\n    y = bytearray(x)\n    z = y\n    z.extend(x)\n    return y\n", [("x", "Bytes")], "Bytes"),
-    ("def f(x):\n    return x == b'a'\n", [("x", "Int")], "Bool"),
+    ("def f(x):\n    return x == 'a'\n", [("x", "Int")], "Bool"),
     ("def f(x):\n    if x > 0:\n        return 1\n", [("x", "Int")], "Int"),
     ("def f(x):\n    try:\n        return 1\n    except BaseException:\n        return 2\n", [("x", "Int")], "Int"),
     ("def f(x):\n    return int.from_bytes(x, 'little')\n", [("x", "Bytes")], "Nat"),
